@@ -668,7 +668,8 @@ func (u *URI) RequestURI() []byte {
 	} else {
 		dst = bytesconv.AppendQuotedPath(u.requestURI[:0], u.Path())
 	}
-	if u.queryArgs.Len() > 0 {
+	// queryArgs is only current while parsedQueryArgs is set: SetQueryString clears the flag, not the list
+	if u.parsedQueryArgs && u.queryArgs.Len() > 0 {
 		dst = append(dst, '?')
 		dst = u.queryArgs.AppendBytes(dst)
 	} else if len(u.queryString) > 0 {
